@@ -61,6 +61,11 @@ def main():
                     os._exit(3)
                 if b == 'hang':
                     time.sleep(3600)
+                if b == 'hang_sigterm_ignored':
+                    # replayed code that installed a graceful-shutdown hook: the worker survives a polite termination request
+                    import signal
+                    signal.signal(signal.SIGTERM, signal.SIG_IGN)
+                    time.sleep(3600)
                 if b == 'late':
                     time.sleep(timeout + 0.35)
             tok = v['token']
